@@ -149,6 +149,19 @@ C13_TaggedSpectators(c) ==
      /\ \A p \in Spectators(c), q \in Spectators(c) : \A k \in DOMAIN a : a[k][p] = a[k][q] /\ a[k][-p] = a[k][-q]
      /\ \A q \in (c.nf + 1)..6 : \A k \in DOMAIN a : RIsZero(a[k][q]) /\ RIsZero(a[k][-q])
 
+\* a flavour-tagged observable on the massless path is the total with the couplings restricted to the tagged quark
+\* (F2_charm = F2_total with NCPositivityCharge = charm, above the charm threshold of a variable-flavour scheme): the same number
+\* of flavours, the same classes, the same weights - whatever the order
+C07_TaggedIsRestricted(c) ==
+  (c.ew.proc # "CC" /\ c.ew.pos = 0 /\ TaggedMassless(c) /\ Supported(c)) =>
+     AG(c) = AG(WithEw(WithFlavor(c, "total"), "pos", c.hq))
+
+\* ------------------------------------------------------------------ C09  the 'missing' channel (heavy-quark loop on a light line)
+\* it couples through the LIGHT quarks only: which massive quark runs in the loop enters through its mass alone - the kernels of
+\* the charm, bottom and top loops are the same (class, weights)
+C09_MissingIsFlavourBlind(c) ==
+  (~AsyScheme(c.fns) /\ c.ew.proc # "CC") => (Missing(c, 4) = Missing(c, 5) /\ Missing(c, 5) = Missing(c, 6))
+
 \* ------------------------------------------------------------------ C06  flavour number (assembly side)
 \* two threshold settings with the same count give the same assembly: Collect depends on the
 \* thresholds only through c.nf  -- by construction of the cell; stated on Cards in MC_Cards.
